@@ -494,21 +494,28 @@ def enumerate_raw_env_histories(meta, tier, seed, P):
         for op, ctx in combos:
             for dl in ([R_DELIVERIES[n % 4]] if tier == "quick" else R_DELIVERIES):
                 for when in ([RE_WHEN[(n // 4) % 3]] if tier == "quick" else RE_WHEN):
-                    cells.append({"kind": "RE", "s": m["name"], "op": op, "ctx": ctx, "delivery": dl, "off": off,
-                                  "var": RE_VARS[(n // 12 + (0 if tier == "quick" else R_DELIVERIES.index(dl) +
-                                                             RE_WHEN.index(when))) % 3], "when": when})
+                    k = n // 12 + (0 if tier == "quick" else R_DELIVERIES.index(dl) + RE_WHEN.index(when))
+                    # the server's own environment: with a GUNICORN_CMD_ARGS (holding another setting), or without any
+                    # (possible when neither the file's path nor the setting under test travels in it)
+                    bare = ctx != "env" and dl != "env-c" and (tier != "quick" or n % 3 != 0)
+                    for genv in (("unset",) if bare and tier == "quick" else ("set", "unset") if bare else ("set",)):
+                        cells.append({"kind": "RE", "s": m["name"], "op": op, "ctx": ctx, "delivery": dl, "off": off,
+                                      "var": RE_VARS[k % 3], "when": when, "genv": genv})
             n += 1
         # the plain control: start-up only, observed on the master after it exported the variables
         for ctx in ("none", "env"):
-            cells.append({"kind": "RE", "s": m["name"], "op": "start", "ctx": ctx, "delivery": R_DELIVERIES[n % 4],
-                          "off": off, "var": RE_VARS[(n // 4) % 2], "when": "initial"})
+            dl = R_DELIVERIES[n % 4]
+            cells.append({"kind": "RE", "s": m["name"], "op": "start", "ctx": ctx, "delivery": dl,
+                          "off": off, "var": RE_VARS[(n // 4) % 3], "when": "initial",
+                          "genv": "unset" if ctx != "env" and dl != "env-c" else "set"})
             n += 1
+        n += 1                                  # the rotation must not fall into step with the cells per setting
     return cells
 
 
 def signature(c):
     return "|".join(str(c.get(k, "")) for k in ("kind", "s", "subset", "off", "step", "delivery", "a", "b", "src",
-                                                "bad", "fallback", "op", "ctx", "pos", "var", "when"))
+                                                "bad", "fallback", "op", "ctx", "pos", "var", "when", "genv"))
 
 
 # ---- from a symbolic cell to a concrete recipe + what the model expects ---------------------------------
@@ -668,7 +675,9 @@ def build_history(cell, MB, P, baseline):
     u = pool_for(MB[U], P)
     w = pool_for(MB[W], P)
     say("cli", U, u[pick(u, "cli", 1)])
-    say("env", W, w[pick(w, "env", 2)])
+    bare = cell.get("genv") == "unset"          # RE cells: a server without any GUNICORN_CMD_ARGS in its environment
+    if not bare:
+        say("env", W, w[pick(w, "env", 2)])
     load = _deliver(cell["delivery"], P, argv, envt, fixed)
     tp, t2p = pool_for(MB[T], P), pool_for(MB[T2], P)
     t_a, t_b = tp[pick(tp, "file", 1)], tp[pick(tp, "file", 2)]
@@ -748,15 +757,18 @@ def build_history(cell, MB, P, baseline):
                     "text": _file_text(lines)[len(e7.FILE_HEADER):] if lines is not None else None,
                     "origins": [v.get("origin") for sname, v in (lines or []) if sname == name],
                     "raw_env": bool([1 for sname, _ in (lines or []) if sname == "raw_env"]) and cell["kind"] == "RE"})
-    recipe = {"argv": argv + ["app:app"], "env": shlex.join(envt),
+    if bare and envt:
+        raise AssertionError("cell %s: GUNICORN_CMD_ARGS was to stay unset" % signature(cell))
+    recipe = {"argv": argv + ["app:app"], "env": None if bare else shlex.join(envt),
               "files": {load: _file_text(versions[0])},
               "steps": [{"files": {load: _file_text(ls) if ls is not None else None}} for ls in versions[1:]]}
     if fw is not None:
         recipe["framework"] = (fw["pre"] + "\n" if fw["pre"] else "") + "FRAMEWORK = {%r: %s}\n" % (name, fw["py"])
     if cell["kind"] == "RE":
         recipe["master"] = True                 # also without steps: observe the master, after it exported raw_env
+        recipe["watch"] = [RE_UNRELATED]
     model = {"versions": out, "mentions": out[0]["mentions"], "load": out[0]["load"], "dpn": dpn, "ment": [],
-             "companions": {"file": T, "cli": U, "env": W}, "raw_env_claims": claims, "raw_env_text": raw_text,
+             "companions": {"file": T, "cli": U, "env": None if bare else W}, "raw_env_claims": claims, "raw_env_text": raw_text,
              "unmentioned": T2}
     return recipe, model
 
@@ -937,6 +949,85 @@ def _precedence_mechanism(sname, exp, wsrc, got, by, model, baseline, MB):
     return "value-not-normalised/" + MB[sname]["validator"]
 
 
+SRC_WORDS = {"cli": "the command line", "env": "GUNICORN_CMD_ARGS", "file": "the file", "framework": "the framework",
+             "default": "the built-in default"}
+
+
+def _raw_env_acted(run, prefix, when, devs, claims, cell, shown, obs, o=None):
+    """A deviating setting has exactly the value that only the file's raw_env entry GUNICORN_CMD_ARGS=... names: what
+    the master exports for the application was read back as a configuration source.  -> True if a violation was filed."""
+    hit = [d for d in devs if claims.get(d[0]) == d[3]]
+    if not hit:
+        return False
+    sname, exp, wsrc, got = sorted(hit, key=lambda d: (SOURCES + ("default",)).index(d[2]))[0]
+    run.violation(prefix + "raw-env-variable-acted-as-configuration-source",
+                  "%s: %s the effective value is %s - the value only the raw_env entry of the configuration file gives, "
+                  "in the GUNICORN_CMD_ARGS it sets for the application; raw_env is a setting, not a source: the most "
+                  "authoritative source mentioning %s (%s) says %s; GUNICORN_CMD_ARGS of the server's environment: %r, "
+                  "in os.environ when the reload began: %r; %d settings deviate from the merge of the sources (%s); "
+                  "sources %s" % (
+                      sname, when, got, sname, SRC_WORDS[wsrc], exp, (obs.get("server_env") or {}).get("GUNICORN_CMD_ARGS"),
+                      ((o or {}).get("env_before") or {}).get("GUNICORN_CMD_ARGS"), len(devs),
+                      ", ".join(sorted(d[0] for d in devs))[:160], json.dumps(shown)), cell)
+    return True
+
+
+def _reexec_env_changed(run, prefix, when, reexec_env, cell, shown, obs):
+    """cfg.env_orig is "the original environment" reexec() starts the next master with; of the variables gunicorn
+    reads itself (GUNICORN_CMD_ARGS, and those its built-in defaults come from) it must hold what the server's
+    environment held, whatever the master exported for the application.  -> True if a violation was filed."""
+    if reexec_env is None:
+        run.inconclusive_because("history %s: no env_orig observation %s" % (signature(cell), when))
+        return True
+    if reexec_env == obs["server_env"]:
+        return False
+    diff = sorted(k for k in set(reexec_env) | set(obs["server_env"]) if reexec_env.get(k) != obs["server_env"].get(k))
+    run.violation(prefix + "raw-env-variable-in-environment-kept-for-next-master",
+                  "%s the environment the master keeps as the original one (cfg.env_orig: what GUNICORN_CMD_ARGS is read "
+                  "from on the next reload, and what the master started by SIGUSR2 gets) differs from the server's "
+                  "environment in %s: %s instead of %s - no source changed, these are what raw_env exports for the "
+                  "application; sources %s" % (when, diff, json.dumps({k: reexec_env.get(k) for k in diff}),
+                                               json.dumps({k: obs["server_env"].get(k) for k in diff}),
+                                               json.dumps(shown)), cell)
+    return True
+
+
+def _raw_env_reach(run, cell, model, prev, ver, i, nreloads, o, obs, vm, baseline):
+    """Reach of one returned, fully compared reload of an RE cell."""
+    claims = model["raw_env_claims"]
+    before = o.get("env_before") or {}
+    if i == nreloads:
+        run.count("raw_env_histories")
+        run.count("raw_env_when_" + cell["when"])
+        run.count("raw_env_edit_" + cell["op"])
+    if not claims:
+        if prev["raw_env"] and before.get(RE_UNRELATED) == model["raw_env_text"]:
+            run.count("raw_env_unrelated_variable_control_reloads")
+        return
+    exported = "GUNICORN_CMD_ARGS=" + model["raw_env_text"]
+    if prev["raw_env"] and before.get("GUNICORN_CMD_ARGS") == model["raw_env_text"]:
+        # the master had exported the variable when Arbiter.reload() began (seen in os.environ), and the
+        # configuration it then adopted is the merge of the four sources in every setting
+        run.count("raw_env_cmd_args_exported_when_reload_began")
+        run.count("raw_env_cmd_args_exported_delivery_" + cell["delivery"])
+        run.count("raw_env_cmd_args_exported_ctx_" + cell["ctx"])
+        if "GUNICORN_CMD_ARGS" in obs["server_env"]:
+            run.count("raw_env_cmd_args_exported_over_the_servers_own")
+        else:
+            run.count("raw_env_cmd_args_exported_server_has_none")
+        if claims.get(cell["s"]) is not None and claims[cell["s"]] != expected(cell["s"], vm, baseline)[0]:
+            run.count("raw_env_says_otherwise_about_setting_under_test")
+        if claims[model["unmentioned"]] != expected(model["unmentioned"], vm, baseline)[0]:
+            run.count("raw_env_says_otherwise_about_unmentioned_setting")
+        if cell["var"] == "cmd-args+defaults" and all(before.get(e.split("=")[0]) == e.split("=", 1)[1] for e in RE_DEFAULTS):
+            run.count("raw_env_default_variables_exported_not_kept_for_next_master")
+    elif prev["raw_env"]:
+        run.inconclusive_because("history %s: the master did not export %s before reload %d (os.environ had %r)" % (
+            signature(cell), exported[:60], i, before.get("GUNICORN_CMD_ARGS")))
+    elif not prev["raw_env"] and before.get("GUNICORN_CMD_ARGS") == obs["server_env"].get("GUNICORN_CMD_ARGS"):
+        run.count("raw_env_cmd_args_not_exported_when_reload_began")
+
+
 def judge_history(run, cell, recipe, model, baseline, obs, MB):
     """Decide one reload history; at most one violation per history."""
     name = cell["s"]
@@ -945,6 +1036,12 @@ def judge_history(run, cell, recipe, model, baseline, obs, MB):
     shown = {"argv": recipe["argv"], "GUNICORN_CMD_ARGS": recipe.get("env"), "framework": recipe.get("framework"),
              "file_versions": [v["text"] for v in vers]}
     run.count("reload_histories")
+    claims = model.get("raw_env_claims") or {}
+    if claims:
+        shown["raw_env_says"] = "GUNICORN_CMD_ARGS=" + model["raw_env_text"]
+    if obs.get("harness"):
+        run.inconclusive_because("history %s: %s" % (signature(cell), obs["harness"]))
+        return
     # -- the start
     if not obs["ok"]:
         run.violation("valid-configuration-rejected/" + vname,
@@ -956,6 +1053,9 @@ def judge_history(run, cell, recipe, model, baseline, obs, MB):
         run.inconclusive_because("set of settings changed between baseline and cell")
         return
     wm, wo = deviations(obs["values"], vers[0]["mentions"], model, baseline)
+    if _raw_env_acted(run, "", "at start-up (observed on the master, after it exported raw_env)", wm + wo, claims,
+                      cell, shown, obs):
+        return
     if wm or wo:
         sname, exp, wsrc, got = (wm or wo)[0]
         mech = _precedence_mechanism(sname, exp, wsrc, got, vers[0]["mentions"].get(sname, {}), model, baseline, MB) \
@@ -966,6 +1066,20 @@ def judge_history(run, cell, recipe, model, baseline, obs, MB):
     if obs["loaded"] != vers[0]["load"]:
         run.violation("wrong-config-file-loaded", "config files executed %s, expected %s; sources %s" % (
             obs["loaded"], vers[0]["load"], json.dumps(shown)), cell)
+        return
+    if "server_env" not in obs:
+        run.inconclusive_because("history %s: the helper did not observe a master" % signature(cell))
+        return
+    if _reexec_env_changed(run, "", "at start-up", obs["reexec_env"], cell, shown, obs):
+        return
+    if cell["kind"] == "RE" and cell["op"] == "start":
+        # the plain control: the first Config exists before anything is exported
+        run.count("raw_env_startup_cells")
+        if claims:
+            run.count("raw_env_naming_cmd_args_at_startup_changes_nothing")
+            run.count("raw_env_startup_delivery_" + cell["delivery"])
+        else:
+            run.count("raw_env_unrelated_variable_at_startup_control")
         return
     # -- the reloads
     steps = obs.get("steps", [])
@@ -1015,6 +1129,8 @@ def judge_history(run, cell, recipe, model, baseline, obs, MB):
                               obs.get("stderr_all", "").strip()[-200:]), cell)
             return
         wm, wo = deviations(o["values"], ver["mentions"], model, baseline)
+        if _raw_env_acted(run, "reload/", "after reload %d" % i, wm + wo, claims, cell, shown, obs, o):
+            return
         for sname, exp, wsrc, got in wm + wo:
             before = expected(sname, dict(model, mentions=prev["mentions"]), baseline)[0]
             was_file = "file" in prev["mentions"].get(sname, {}) and "file" not in ver["mentions"].get(sname, {})
@@ -1056,6 +1172,8 @@ def judge_history(run, cell, recipe, model, baseline, obs, MB):
                               [os.path.basename(x) for x in o["loaded"]], [os.path.basename(x) for x in ver["load"]],
                               json.dumps(shown)), cell)
             return
+        if _reexec_env_changed(run, "reload/", "after reload %d" % i, o.get("reexec_env"), cell, shown, obs):
+            return
         # reach: what this reload showed
         run.count("reload_settings_compared", len(baseline))
         run.count("reload_delivery_" + cell["delivery"])
@@ -1063,6 +1181,10 @@ def judge_history(run, cell, recipe, model, baseline, obs, MB):
         exp, wsrc = expected(name, vm, baseline)
         before = expected(name, dict(model, mentions=prev["mentions"]), baseline)[0]
         op = cell["op"]
+        if cell["kind"] == "RE":
+            _raw_env_reach(run, cell, model, prev, ver, i, len(vers) - 1, o, obs, vm, baseline)
+            if i > 1:
+                continue                    # the edit was counted with the first reload
         if op in ("add", "change") and wsrc == "file" and exp != before:
             run.count("reload_%s_takes_effect" % op)
             for org in ver["origins"]:
@@ -1073,14 +1195,16 @@ def judge_history(run, cell, recipe, model, baseline, obs, MB):
         elif wsrc in ("cli", "env"):
             run.count("reload_%s_keeps_winning_over_edited_file" % wsrc)
         comp = model["companions"]
-        if all(expected(comp[k], vm, baseline)[1] == k for k in ("cli", "env")) and \
+        if all(expected(comp[k], vm, baseline)[1] == k for k in ("cli", "env") if comp[k]) and \
                 (ver["text"] is None or expected(comp["file"], vm, baseline)[1] == "file"):
             run.count("reload_other_sources_settings_intact")
 
 
 def history_nontrivial(cell, model, baseline):
-    if cell["kind"] == "RI" or cell["ctx"] in ("cli", "env"):
+    if cell["kind"] == "RI" or cell["ctx"] in ("cli", "env") or model.get("raw_env_claims"):
         return True
+    if len(model["versions"]) < 2:
+        return False
     a, b = (expected(cell["s"], dict(model, mentions=v["mentions"]), baseline)[0] for v in model["versions"][:2])
     return a != b
 
@@ -1106,7 +1230,7 @@ def run_cells(run, cells, seed, tier, isolate):
         MB = {m["name"]: m for m in meta}
         built = []
         pre = None
-        if any(c["kind"] in ("R", "RI") for c in cells):
+        if any(c["kind"] in ("R", "RI", "RE") for c in cells):
             # histories choose values that differ from the built-in default: one baseline load ahead of the batch
             pre = e7.run_recipes(home, [BASE_RECIPE], timeout=120)[0]
             if not pre["ok"]:
@@ -1117,7 +1241,7 @@ def run_cells(run, cells, seed, tier, isolate):
                 run.inconclusive_because("no value table for setting %s (validator %s)" % (
                     c["s"], MB.get(c["s"], {}).get("validator")))
                 continue
-            if c["kind"] in ("R", "RI"):
+            if c["kind"] in ("R", "RI", "RE"):
                 built.append((c,) + build_history(c, MB, P, pre["values"]))
             else:
                 built.append((c,) + build(c, MB, P))
@@ -1141,7 +1265,9 @@ def run_cells(run, cells, seed, tier, isolate):
             return
         run.count("baselines_agree")
         for (c, recipe, model), o in zip(built, obs[2:-1]):
-            if c["kind"] in ("R", "RI"):
+            if o.get("harness") and c["kind"] not in ("R", "RI", "RE"):
+                run.inconclusive_because("cell %s: %s" % (signature(c), o["harness"]))
+            if c["kind"] in ("R", "RI", "RE"):
                 run.case(signature(c), nontrivial=history_nontrivial(c, model, baseline))
                 judge_history(run, c, recipe, model, baseline, o, MB)
                 continue
@@ -1164,6 +1290,14 @@ def run_cells(run, cells, seed, tier, isolate):
                             "expected_after_reload": "the master stops with an error (or keeps the former "
                             "configuration entirely)" if last["invalid"] else
                             expected(c["s"], dict(model, mentions=last["mentions"]), baseline)[0]}, cap=2)
+            if c["kind"] == "RE" and model["raw_env_claims"] and c["ctx"] == "none":
+                last = model["versions"][-1]
+                run.sample({"cell": c, "argv": recipe["argv"], "GUNICORN_CMD_ARGS": recipe.get("env"),
+                            "config_file_versions": [v["text"] for v in model["versions"]],
+                            "expected_after_every_reload": "the merge of command line, GUNICORN_CMD_ARGS of the server's "
+                            "environment, file and framework; for %s finally %s, for %s its built-in default" % (
+                                c["s"], expected(c["s"], dict(model, mentions=last["mentions"]), baseline)[0],
+                                model["unmentioned"])}, cap=4)
             if c["kind"] == "M" and len(c["subset"]) >= 3 or c["kind"] == "I" and c["fallback"]:
                 exp = None if c["kind"] == "I" else expected(c["s"], model, baseline)[0]
                 run.sample({"cell": c, "argv": recipe["argv"], "GUNICORN_CMD_ARGS": recipe.get("env"),
@@ -1217,13 +1351,25 @@ def main(tier, seed):
                 "reload_cli_keeps_winning_over_edited_file", "reload_env_keeps_winning_over_edited_file",
                 "reload_other_sources_settings_intact", "reload_invalid_rejected",
                 *["reload_invalid_position_" + x for x in R_POSITIONS],
-                *["reload_delivery_" + x for x in R_DELIVERIES])
+                *["reload_delivery_" + x for x in R_DELIVERIES],
+                # raw_env entries naming variables gunicorn reads itself: reloads that BEGAN with the variable exported
+                # by the master (seen in os.environ) and ended with the merge of the four sources in every setting
+                "raw_env_histories", "raw_env_cmd_args_exported_when_reload_began",
+                "raw_env_cmd_args_exported_server_has_none", "raw_env_cmd_args_exported_over_the_servers_own",
+                "raw_env_says_otherwise_about_setting_under_test", "raw_env_says_otherwise_about_unmentioned_setting",
+                "raw_env_default_variables_exported_not_kept_for_next_master",
+                "raw_env_cmd_args_not_exported_when_reload_began", "raw_env_unrelated_variable_control_reloads",
+                *["raw_env_cmd_args_exported_delivery_" + x for x in R_DELIVERIES],
+                *["raw_env_cmd_args_exported_ctx_" + x for x in ("none", "framework", "env", "cli")],
+                *["raw_env_when_" + x for x in RE_WHEN], *["raw_env_edit_" + x for x in RE_OPS],
+                "raw_env_naming_cmd_args_at_startup_changes_nothing", "raw_env_unrelated_variable_at_startup_control",
+                *["raw_env_startup_delivery_" + x for x in R_DELIVERIES])
     meta = _meta_once()
     cells = enumerate_cells(meta, tier, seed)
     run.info["settings"] = len(meta)
     run.info["settings_with_cli_flag"] = len([m for m in meta if m["cli"]])
     run.info["matrix_cells"] = len(cells)
-    for k in ("M", "D", "X", "I", "R", "RI"):
+    for k in ("M", "D", "X", "I", "R", "RI", "RE"):
         run.info["matrix_cells_" + k] = len([c for c in cells if c["kind"] == k])
     run.extra_cov["exhaustive"] = True
     run.extra_cov["matrix"] = ("every setting of make_settings() x every non-empty subset of the sources able to "
@@ -1231,7 +1377,11 @@ def main(tier, seed):
                                "cells; plus, per setting, reload histories {add, change, remove} x {nobody else, "
                                "framework, GUNICORN_CMD_ARGS, command line also mentions it}, deletion of the "
                                "discovered file, and every file-expressible invalid representative introduced by an "
-                               "edit (see rule)" % len(assignments(4, tier, seed)))
+                               "edit; plus, per setting with a command line flag, reload histories {no edit, add, "
+                               "change, remove} whose file carries raw_env entries naming GUNICORN_CMD_ARGS (and "
+                               "WEB_CONCURRENCY, PORT, FORWARDED_ALLOW_IPS, or an unrelated variable) from the start / "
+                               "from the edit on / until the edit, with and without a GUNICORN_CMD_ARGS in the server's "
+                               "own environment, and the start-up-only control (see rule)" % len(assignments(4, tier, seed)))
     run.assumptions = [
         "judged at the settings layer (cfg.settings[name].get() after Application.load_config); derived properties "
         "(cfg.sendfile, cfg.worker_class, cfg.address ...) are out of scope",
@@ -1244,10 +1394,26 @@ def main(tier, seed):
         "an invalid value in a less authoritative source that a more authoritative valid value would override is not "
         "judged (the statement does not say whether it must still stop startup); invalid + less authoritative valid is",
         "accounts root/www-data/nobody/nogroup are used only if the local databases map them to 0/33/65534",
-        "reload histories are run on the application object: app.reload() is the call Arbiter.reload() makes on SIGHUP, "
-        "and the master adopts app.cfg (Arbiter.setup) exactly when that call returns; an exception, SystemExit "
-        "included, ends the master, so what app.cfg holds after a failed reload is not judged; gunicorn.debug.spew is "
-        "stubbed (reload() installs the line tracer when spew is set)",
+        "reload histories execute the real Arbiter.reload() on a real Arbiter created from the loaded application "
+        "(Arbiter.__init__ -> setup() adopts app.cfg and exports raw_env as a real master does); only outward effects are "
+        "switched off in the helper process: Config.logger_class / Config.worker_class return inert classes, "
+        "sock.create_sockets / close_sockets, Pidfile, util._setproctitle, gunicorn.debug.spew, app.wsgi, spawn_worker / "
+        "manage_workers / kill_workers do nothing; Arbiter.start() / run() are not called (no signal handlers, no fork); "
+        "hooks of the configuration (nworkers_changed, on_reload) run as they are.  The configuration judged after a "
+        "reload is arb.cfg, what the master runs with; an exception escaping Arbiter.reload(), SystemExit included, ends "
+        "the master, so nothing is judged after a failed reload.  If the Arbiter cannot be constructed from a loaded "
+        "application the run is inconclusive (no fallback)",
+        "raw_env is a setting (variables the master exports for the application), not a configuration source: in raw_env "
+        "cells the expected values are the merge of command line, GUNICORN_CMD_ARGS of the server's own environment, "
+        "file and framework, whatever the entries say; the text given to GUNICORN_CMD_ARGS by raw_env names the setting "
+        "under test with a value no source gives it and a setting nobody mentions with a non-default value, so a read-back "
+        "shows in at least one setting; that the master had exported the variable when the reload began is observed in "
+        "os.environ (reach raw_env_cmd_args_exported_when_reload_began), not assumed",
+        "next to the settings, raw_env cells (and every other history) compare cfg.env_orig - the environment "
+        "get_cmd_args_from_env() reads on the next reload and reexec() starts the next master with - with the server's "
+        "environment in GUNICORN_CMD_ARGS, WEB_CONCURRENCY, PORT, FORWARDED_ALLOW_IPS (the variables gunicorn's sources "
+        "and built-in defaults come from); the re-execution itself (SIGUSR2) is not performed here",
+        "os.environ is snapshotted at the start of every cell and restored at its end",
         "the exception type with which a validator refuses a value is observed by wrapping Setting.set in the helper "
         "(the exception passes through unchanged); it only names reach counters (invalid_rejected_from_<source>_by_<type>) "
         "and falls back to the type tabulated with the representative; the rule is the same for every type",
